@@ -93,12 +93,16 @@ def krigeCallField (sched : Sched) (L : Layout) (M : Nat → Nat → α) (rhs : 
 def getMeanUnb (L : Layout) (M : Nat → Nat → α) (cond : Nat → α) : α :=
   forRange 0 L.size ((0:Nat):α) fun i acc => acc + cond i * M i L.n
 
-/-! ### the refresh protocol of one `Krige` object (`set_condition` in all its argument forms)
+/-! ### the refresh protocol of one `Krige` object (`set_condition` in all its argument forms) and its target positions
 
 Values are abstract version identifiers.  A call combines: the stored inverse matrix (built by the last
 `set_condition` from the model, positions, measurement errors and external drift of *that* moment), the
 stored isometrised positions `_krige_pos` (same moment), the right-hand sides / sill of the model *at call
-time*, and the conditions prepared at call time from the current values and mean/normaliser/trend. -/
+time*, the conditions prepared at call time from the current values and mean/normaliser/trend, and the TARGET
+positions: those passed to the call, else those stored by the last call / `set_pos` that was given some
+(`Field.pre_pos` → `Field.set_pos`; `pos`, `mesh_type`).  Two position sets with different identifiers are
+different sets — however close their coordinates are numerically; the same coordinates under the other mesh
+type are a different identifier pair `(id, structured)`. -/
 
 /-- what the result of a call depends on -/
 structure HTok where
@@ -111,6 +115,8 @@ structure HTok where
   rhsModel : Nat
   val : Nat
   mnt : Nat
+  tpos : Nat       -- the target positions the right-hand sides, drifts, mean and trend are evaluated at
+  tmesh : Bool     -- their mesh type (true = structured: the identifier names the axes)
 deriving DecidableEq, Repr, Inhabited
 
 structure HState where
@@ -126,42 +132,70 @@ structure HState where
   matExt : Nat
   kpModel : Nat
   kpPos : Nat
+  tpos : Option (Nat × Bool)   -- stored target positions `pos` with `mesh_type`; `none` = never given
 deriving DecidableEq, Repr, Inhabited
 
 inductive HOp where
   | editModel (v : Nat)                         -- in-place parameter change or re-assignment of `.model`
   | editMNT (v : Nat)                           -- re-assignment of `.mean` / `.normalizer` / `.trend`
-  | setCond (pos val ext err : Option Nat)      -- `set_condition(cond_pos, cond_val, ext_drift, cond_err)`, `none` = not passed
-  | call
+  | setCond (pos val ext err fitN fitV : Option Nat)
+      -- `set_condition(cond_pos, cond_val, ext_drift, cond_err, fit_normalizer, fit_variogram)`, `none` = not passed;
+      -- `fitN = some v`: the normaliser is fitted to the data (`v` names the fitted mean/normaliser/trend),
+      -- `fitV = some v`: the variogram model is fitted in place (`v` names the fitted parameters: var, len_scale, nugget,
+      --   anisotropy ratios of a directional fit, optional arguments)
+  | setPos (p : Nat) (structured : Bool)        -- `set_pos(pos, mesh_type)`
+  | call (pos : Option Nat) (structured via : Bool)
+      -- `kr(pos, mesh_type=…)` (`via = false`) or `kr.structured(pos)` / `kr.unstructured(pos)` (`via = true`); `pos = none`: not passed
+deriving DecidableEq, Repr, Inhabited
+
+/-- outcome of a call -/
+inductive HRes where
+  | ok (t : HTok)
+  | noPos          -- ValueError: no positions present / the present ones cannot be reused under the requested mesh type
 deriving DecidableEq, Repr, Inhabited
 
 /-- a freshly constructed object -/
 def hinit (model pos val err ext mnt : Nat) : HState :=
   { model, pos, val, err, ext, mnt, matModel := model, matPos := pos, matErr := err, matExt := ext,
-    kpModel := model, kpPos := pos }
+    kpModel := model, kpPos := pos, tpos := none }
 
-/-- what `kr(...)` combines now -/
-def callTok (s : HState) : HTok :=
+/-- what `kr(...)` combines now when it evaluates the targets `t` -/
+def callTok (s : HState) (t : Nat × Bool) : HTok :=
   { matModel := s.matModel, matPos := s.matPos, matErr := s.matErr, matExt := s.matExt,
-    kpModel := s.kpModel, kpPos := s.kpPos, rhsModel := s.model, val := s.val, mnt := s.mnt }
+    kpModel := s.kpModel, kpPos := s.kpPos, rhsModel := s.model, val := s.val, mnt := s.mnt,
+    tpos := t.1, tmesh := t.2 }
 
-/-- what a freshly constructed object with the current model and conditions combines -/
-def freshTok (s : HState) : HTok := callTok (hinit s.model s.pos s.val s.err s.ext s.mnt)
+/-- what a freshly constructed object with the current model and conditions combines when it is given the targets `t` -/
+def freshTok (s : HState) (t : Nat × Bool) : HTok := callTok (hinit s.model s.pos s.val s.err s.ext s.mnt) t
 
 /-- `set_condition`: an external drift that is not passed is kept only when no new positions are passed;
-    everything else that is not passed is kept; the matrix and `_krige_pos` are ALWAYS rebuilt -/
-def setCond (s : HState) (pos val ext err : Option Nat) : HState :=
+    everything else that is not passed is kept; the normaliser / the model are fitted FIRST when asked for; then the
+    matrix and `_krige_pos` are ALWAYS rebuilt — from the fitted model; the stored target positions are untouched -/
+def setCond (s : HState) (pos val ext err fitN fitV : Option Nat) : HState :=
   let ext' := match ext, pos with
     | some e, _ => e
     | none, none => s.ext
     | none, some _ => 0
-  hinit s.model (pos.getD s.pos) (val.getD s.val) (err.getD s.err) ext' s.mnt
+  { hinit (fitV.getD s.model) (pos.getD s.pos) (val.getD s.val) (err.getD s.err) ext' (fitN.getD s.mnt) with tpos := s.tpos }
 
-def hstep (s : HState) : HOp → HState × Option HTok
+/-- the targets a call evaluates, from its arguments and the positions `present`:
+    given positions are taken as they are, with the mesh type of the call; without positions the present ones
+    are reused with THEIR mesh type (`kr.structured()` / `kr.unstructured()` refuse the other type) -/
+def target (present : Option (Nat × Bool)) (pos : Option Nat) (structured via : Bool) : Option (Nat × Bool) :=
+  match pos, present with
+  | some p, _ => some (p, structured)
+  | none, none => none
+  | none, some (q, m) => if via && (m != structured) then none else some (q, m)
+
+def hstep (s : HState) : HOp → HState × Option HRes
   | .editModel v => ({ s with model := v }, none)
   | .editMNT v => ({ s with mnt := v }, none)
-  | .setCond p v e r => (setCond s p v e r, none)
-  | .call => (s, some (callTok s))
+  | .setCond p v e r fn fv => (setCond s p v e r fn fv, none)
+  | .setPos p st => ({ s with tpos := some (p, st) }, none)
+  | .call pos st via =>
+    match target s.tpos pos st via with
+    | some t => ({ s with tpos := some t }, some (.ok (callTok s t)))
+    | none => (s, some .noPos)
 
 /-- the stored matrix and positions belong to the current model and conditions -/
 def hsynced (s : HState) : Prop :=
@@ -169,14 +203,34 @@ def hsynced (s : HState) : Prop :=
 
 instance (s : HState) : Decidable (hsynced s) := by unfold hsynced; infer_instance
 
-/-- run a history; every call reports (token used, token of a fresh object at that moment) -/
-def hrun (s : HState) : List HOp → List (HTok × HTok)
+/-- SPECIFICATION side (independent of the state): the target positions last GIVEN to the object, by a call
+    that passed some or by `set_pos` -/
+def given (g : Option (Nat × Bool)) : HOp → Option (Nat × Bool)
+  | .setPos p st => some (p, st)
+  | .call (some p) st _ => some (p, st)
+  | _ => g
+
+/-- what a call should return: a freshly constructed object (current model and conditions) evaluated at the
+    requested targets — the given ones, else the last given ones `g` -/
+def specRes (s : HState) (g : Option (Nat × Bool)) : HOp → Option HRes
+  | .call pos st via =>
+    match target g pos st via with
+    | some t => some (.ok (freshTok s t))
+    | none => some .noPos
+  | _ => none
+
+/-- run a history; every call reports (what it returned, what the specification asks for at that moment).
+    `g` = the positions last given before the history starts -/
+def hrun (s : HState) (g : Option (Nat × Bool)) : List HOp → List (HRes × HRes)
   | [] => []
   | op :: ops =>
     let r := hstep s op
-    match r.2 with
-    | some t => (t, freshTok s) :: hrun r.1 ops
-    | none => hrun r.1 ops
+    match r.2, specRes s g op with
+    | some x, some y => (x, y) :: hrun r.1 (given g op) ops
+    | _, _ => hrun r.1 (given g op) ops
+
+/-- state after a history -/
+def hfinal (s : HState) (ops : List HOp) : HState := ops.foldl (fun s o => (hstep s o).1) s
 
 /-! ### driver ops (Float) -/
 
@@ -189,13 +243,23 @@ def parseHOp (j : Json) : Except String HOp := do
   match ← getStr j "k" with
   | "model" => return .editModel (← getNat j "v")
   | "mnt" => return .editMNT (← getNat j "v")
-  | "set_condition" => return .setCond (optNat j "pos") (optNat j "val") (optNat j "ext") (optNat j "err")
-  | "call" => return .call
+  | "set_condition" => return .setCond (optNat j "pos") (optNat j "val") (optNat j "ext") (optNat j "err") (optNat j "fitn") (optNat j "fitv")
+  | "set_pos" => return .setPos (← getNat j "p") (← getBool j "structured")
+  | "call" => return .call (optNat j "pos") (← getBool j "structured") (← getBool j "via")
   | k => throw s!"unknown krige history op {k}"
 
 def htokJson (t : HTok) : Json :=
-  Json.arr ((#[t.matModel, t.matPos, t.matErr, t.matExt, t.kpModel, t.kpPos, t.rhsModel, t.val, t.mnt] : Array Nat).map
+  Json.arr ((#[t.matModel, t.matPos, t.matErr, t.matExt, t.kpModel, t.kpPos, t.rhsModel, t.val, t.mnt, t.tpos,
+      if t.tmesh then 1 else 0] : Array Nat).map
     fun n => Json.num (JsonNumber.fromNat n))
+
+def hresJson : HRes → Json
+  | .ok t => htokJson t
+  | .noPos => Json.null
+
+def tposJson : Option (Nat × Bool) → Json
+  | some (p, m) => Json.arr #[Json.num (JsonNumber.fromNat p), Json.bool m]
+  | none => Json.null
 
 /-- the normaliser maps with the masking of `Normalizer.normalize/denormalize` (NaN outside the range) -/
 def normF (k : Norm.Kind) (p : Norm.Par Float) (x : Float) : Float := Norm.optF (Norm.normalize k p x)
@@ -243,14 +307,17 @@ def ops (op : String) (j : Json) : Option (Except String Json) :=
       let arr ← (← j.getObjVal? "ops").getArr?
       let opl ← arr.toList.mapM parseHOp
       let mut s := s0
+      let mut g : Option (Nat × Bool) := none
       let mut out : Array Json := #[]
       for o in opl do
         let (s', r) := hstep s o
-        match r with
-        | some t => out := out.push (Json.mkObj [("tok", htokJson t), ("fresh", htokJson (freshTok s)),
-            ("eq_fresh", Json.bool (decide (t = freshTok s))), ("synced", Json.bool (decide (hsynced s)))])
-        | none => pure ()
+        match r, specRes s g o with
+        | some x, some y => out := out.push (Json.mkObj [("res", hresJson x), ("spec", hresJson y),
+            ("eq_fresh", Json.bool (decide (x = y))), ("synced", Json.bool (decide (hsynced s))),
+            ("error", Json.bool (decide (x = .noPos))), ("stored", tposJson s'.tpos), ("given", tposJson (given g o))])
+        | _, _ => pure ()
         s := s'
+        g := given g o
       return Json.arr out)
   | "krige_mean" => some (do
       let L ← getLayout j
